@@ -235,3 +235,242 @@ def sweep_batches(shim, r, per_case, max_cps, flag_bits, rle, stat, batch=400000
             lines = []
     if lines:
         yield lines
+
+
+# ------------------------------------------------------------------------------------------------
+# C03 / C10: small "feature" fonts per syllabic shaper and texts with broken clusters
+
+SHAPER_FILES = {"indic": "ot_shaper_indic.rs", "khmer": "ot_shaper_khmer.rs", "myanmar": "ot_shaper_myanmar.rs", "use": "ot_shaper_use.rs"}
+COMMON_FEATURES = ["ccmp", "locl", "rlig", "calt", "clig", "rclt"]
+_feat = {}
+
+
+def shaper_features(name):
+    """feature tags written in the shaper's own source (in source order: basic / form features first, presentation features after
+    the reordering pauses) + the horizontal features every shaper gets from ot_shape.rs"""
+    if name not in _feat:
+        p = os.path.join(vlib.REPO, "src", "hb", SHAPER_FILES[name])
+        tags = []
+        if os.path.exists(p):
+            for t in re.findall(r'from_bytes\(b"([A-Za-z0-9 ]{4})"\)', open(p).read()):
+                if t not in tags and t == t.lower():
+                    tags.append(t)
+        _feat[name] = [t for t in tags if t not in ("liga", "dflt", "latn")] + [t for t in COMMON_FEATURES if t not in tags]
+    return _feat[name]
+
+
+TOPOGRAPHICAL = ("isol", "init", "medi", "fina")
+
+
+class SynthCase:
+    pass
+
+
+def _pick(r, xs, k):
+    xs = list(xs)
+    return r.sample(xs, min(k, len(xs))) if xs else []
+
+
+def _composite(c):
+    d = unicodedata.decomposition(chr(c))
+    return bool(d) and not d.startswith("<")
+
+
+def feature_recipe(r, ent, tag, topographical=False, mark_first_ligatures=False, composites=False):
+    """a small font for one (script, GSUB tag): 2-3 consonants (RA among them), viramas / coengs, nukta, 3-4 dependent vowels, 2-3 other
+    marks, an independent vowel, a digit + U+25CC, space, NBSP, ZWJ / ZWNJ (1 font in 2), 4-6 unencoded target glyphs; 2-5 lookups under
+    features of the shaper's own list: SingleSubst (format 2) and LigatureSubst whose coverages are SMALL subsets of {dotted circle,
+    marks, viramas, consonants} (the dotted circle over-represented), substitutes = target glyphs or other small-set glyphs.
+    No multiple substitution, no deletion, no contextual lookup: what one cluster becomes depends on that cluster alone, up to the
+    ligatures, which flag what they join"""
+    # characters with a canonical decomposition are left out: the normalizer recomposes <RA, NUKTA> -> RRA only when SOME cluster of
+    # the buffer has a mark (`all_simple`, ot_shape_normalize.rs, same in HarfBuzz), so their glyphs depend on distant text
+    # (finding normalizer-all-simple)
+    own = ent["cps"] if composites else [c for c in ent["cps"] if not _composite(c)]
+    ro = roles(own)
+    cons = _pick(r, ro["cons"], 2) + ro["ra"][:1]
+    hal = ro["halant"][:2]
+    chars = []
+    for c in (cons + hal + ro["nukta"][:1] + _pick(r, ro["matra"], r.range(3, 4)) + _pick(r, ro["othermarks"], r.range(2, 3))
+              + _pick(r, ro["indep"], 1) + _pick(r, ro["digits"], 1) + _pick(r, own, 2)):
+        if c not in chars:
+            chars.append(c)
+    script_chars = list(chars)
+    chars += [DOTTED, SPACE, NBSP] + ([ZWJ, ZWNJ] if r.chance(1, 2) else [])
+    cmap = {cp: i + 1 for i, cp in enumerate(chars)}
+    nt = r.range(4, 6)
+    n = 1 + len(chars) + nt
+    targets = list(range(1 + len(chars), n))
+    dc = cmap[DOTTED]
+    markg = [cmap[c] for c in script_chars if _cat(c) in ("Mn", "Mc", "Me") or not ro["known"]]
+    small = [dc] * 3 + markg + [cmap[c] for c in cons]
+    allg = [cmap[c] for c in script_chars] + [dc]
+    feats_all = [t for t in shaper_features(ent_shaper(ent, tag)) if topographical or t not in TOPOGRAPHICAL]
+    nonmark = [g for g in allg if g not in markg] or [dc]
+    lookups, feats = [], []
+    for li in range(r.range(2, 5)):
+        k = r.below(6)
+        if k == 0 or li == 0:
+            cov = [dc]
+        elif k < 4:
+            cov = sorted(set(r.choice(small) for _ in range(r.range(1, 3))))
+        else:
+            cov = sorted(set([dc] + [r.choice(allg) for _ in range(r.range(1, 2))]))
+        if r.chance(1, 4):
+            if not mark_first_ligatures:
+                # a ligature whose FIRST glyph is a mark can join a reordered (pre-base) mark with the base it was moved in front
+                # of: merge_clusters renames the first component and so drops its UNSAFE_TO_BREAK (finding reordered-ligature)
+                cov = sorted(set(g for g in cov if g not in markg) or {r.choice(nonmark)})
+            sets = [[{"components": [r.choice(allg) for _ in range(r.choice([1, 1, 2]))], "glyph": r.choice(targets)}
+                     for _ in range(r.range(1, 2))] for _ in cov]
+            lookups.append({"type": 4, "flag": 0, "subtables": [{"coverage": cov, "ligsets": sets}]})
+        else:
+            lookups.append({"type": 1, "flag": 0, "subtables": [{"format": 2, "coverage": cov,
+                                                                 "subst": [r.choice(targets + small) for _ in cov]}]})
+        feats.append({"tag": r.choice(feats_all), "lookups": [li]})
+    adv = [500] + [(0 if _cat(c) in ("Mn", "Me") else 400 + 13 * i) for i, c in enumerate(chars)] + [700 + 17 * i for i in range(nt)]
+    rec = {"num_glyphs": n, "cmap": cmap, "advances": adv,
+           "gsub": {"scripts": [{"tag": tag, "default": {"required": None, "features": list(range(len(feats)))}, "langs": []}],
+                    "features": feats, "lookups": lookups}}
+    return rec, ro, script_chars
+
+
+def ent_shaper(ent, tag):
+    return dict(ent["variants"]).get(tag)
+
+
+def feature_groups(shim, r, count, prefix="Y", topographical=False, mark_first_ligatures=False, composites=False):
+    """topographical / mark_first_ligatures: 1 font in 3 (of the USE fonts / of all fonts) may then carry isol / init / medi / fina
+    features resp. ligatures that start with a mark — both lead to documented upstream behaviour (see known_class)"""
+    """font groups (the dicts flagslib.Shaping wants): the shaper kinds take turns (indic old spec / indic new spec / khmer / myanmar /
+    use incl. the Indic '3' tags); within a kind the scripts are drawn at random"""
+    table = shaper_table(shim)
+    kinds = {"indic-old": [], "indic-new": [], "khmer": [], "myanmar": [], "use": []}
+    for ent in table:
+        for tag, nm in ent["variants"]:
+            if tag is None: continue
+            k = nm if nm != "indic" else ("indic-new" if tag.endswith("2") else "indic-old")
+            kinds[k].append((ent, tag))
+    order = [k for k in ("khmer", "indic-new", "use", "myanmar", "indic-old", "use") if kinds[k]]
+    groups = []
+    tries = 0
+    while len(groups) < count and tries < 4 * count:
+        tries += 1
+        kind = order[len(groups) % len(order)]
+        ent, tag = r.choice(kinds[kind])
+        topo = topographical and kind == "use" and r.chance(1, 3)
+        mfl = mark_first_ligatures and r.chance(1, 3)
+        rec, ro, chars = feature_recipe(r, ent, tag, topo, mfl, composites)
+        try:
+            hx = fontbuild.hexfont(rec)
+        except fontbuild.FontBuildError:
+            continue
+        fid = f"{prefix}{len(groups)}"
+        c = SynthCase()
+        c.name, c.font, c.index, c.text = fid, f"synthetic:{fid}", 0, ""
+        c.dir, c.script, c.lang, c.flags, c.level, c.feats = None, ent["iso"], None, 0, 0, []
+        c.pre, c.post, c.extra, c.opts = "", "", [], ""
+        inv = {g: cp for cp, g in rec["cmap"].items()}
+        groups.append({"fid": fid, "reg": f"font {fid} {hx}", "cases": [c], "alphabet": [chr(x) for x in chars], "aat": False,
+                       "synthetic": True, "profile": f"syllabic:{kind}:{ent['iso']}/{tag.strip()}", "recipe": rec, "roles": ro,
+                       "chars": chars, "kind": kind, "iso": ent["iso"], "has_joiners": ZWJ in rec["cmap"],
+                       "topographical": topo and any(f["tag"] in TOPOGRAPHICAL for f in rec["gsub"]["features"]),
+                       "mark_first_ligature": mfl and any(lk["type"] == 4 for lk in rec["gsub"]["lookups"]),
+                       "composites": any(_composite(x) for x in chars)})
+    return groups
+
+
+def syllable_text(r, g):
+    """2-5 chunks: a well-formed syllable (C, C M, C N M, C H C, RA H C, C H ZWJ, C marks), a BROKEN cluster (dependent vowel / virama /
+    coeng / nukta / other mark without a base, virama + consonant), a typed dotted circle (alone or carrying marks), a space, NBSP +
+    mark, an independent vowel / digit; all drawn from the font's own small alphabet"""
+    ro, chars = g["roles"], g["chars"]
+    have = lambda xs: [c for c in xs if c in chars]
+    cons = have(ro["cons"]) or chars[:1]
+    hal, nuk = have(ro["halant"]), have(ro["nukta"])
+    marks = [c for c in chars if _cat(c) in ("Mn", "Mc", "Me")] or chars[-2:]
+    matra = have(ro["matra"]) or marks
+    other = have(ro["indep"]) + have(ro["digits"]) or cons
+    J = [ZWJ, ZWNJ] if g["has_joiners"] else []
+    t = []
+    for _ in range(r.range(2, 5)):
+        k = r.below(16)
+        C = r.choice(cons)
+        if k == 0: t += [C]
+        elif k == 1: t += [C, r.choice(matra)]
+        elif k == 2: t += [C] + (nuk[:1] if nuk else []) + [r.choice(marks)]
+        elif k == 3 and hal: t += [C, r.choice(hal), r.choice(cons)]
+        elif k == 4 and hal: t += [cons[-1], hal[0], C] + ([r.choice(matra)] if r.chance(1, 2) else [])
+        elif k == 5 and hal: t += [C, r.choice(hal)] + ([r.choice(J)] if J and r.chance(1, 2) else [])
+        elif k == 6: t += [C, r.choice(marks), r.choice(marks)]
+        elif k in (7, 8): t += [r.choice(marks)] + ([r.choice(marks)] if r.chance(1, 3) else [])          # broken
+        elif k == 9 and hal: t += [r.choice(hal)] + ([C] if r.chance(1, 2) else [])                         # broken
+        elif k in (10, 11): t += [DOTTED] + ([r.choice(marks)] if r.chance(2, 3) else [])
+        elif k == 12: t += [SPACE]
+        elif k == 13: t += [NBSP, r.choice(marks)]
+        elif k == 14: t += [r.choice(other)]
+        else: t += [r.choice(chars)]
+    return t[:14]
+
+
+def make_shaping(r, g, flags, dnidc=0x10):
+    """a flagslib.Shaping over syllable_text: the script's own direction 7 times in 10 (else l / r / t / b: the forced ones fall into
+    the documented class `reversed`), levels 0 / 1, strictly increasing cluster numbers (sometimes with gaps), BOT / EOT mostly on,
+    DO_NOT_INSERT_DOTTED_CIRCLE 1 time in 8"""
+    import flagslib as F
+    s = F.Shaping()
+    s.g = g
+    s.case = g["cases"][0]
+    s.text = "".join(chr(c) for c in syllable_text(r, g))
+    s.clusters = F.rand_clusters(r, len(s.text), False)
+    s.req_dir = r.choice([None] * 7 + ["l", "r", "t", "b"])
+    s.dir = s.req_dir
+    s.script = s.case.script
+    s.flags = flags | r.choice([0, 3, 3, 3]) | (dnidc if r.chance(1, 8) else 0)
+    s.level = r.choice((0, 1))
+    s.extra = []
+    s.pre, s.post = "", ""
+    s.subset = None
+    s.line = None
+    return s
+
+
+KNOWN_CLASSES = {
+    "normalizer-all-simple": "ot_shape_normalize.rs (same in HarfBuzz hb-ot-shape-normalize.cc): the recomposition round runs only when some "
+                             "cluster of the buffer contains a mark (`all_simple`); under the shapers that decompose first (Indic, USE: "
+                             "COMPOSED_DIACRITICS_NO_SHORT_CIRCUIT) a precomposed letter such as U+0931 comes out as <0930,093C> when the "
+                             "piece has no mark and as 0931 when a mark stands anywhere else in the text",
+    "use-topographical": "Universal shaper, scripts without Arabic joining: setup_topographical_masks (ot_shaper_use.rs, same in HarfBuzz "
+                         "hb-ot-shaper-use.cc) gives a syllable the isol / init / medi / fina mask according to whether the syllables "
+                         "before and after it join, and flags nothing: in a font with such features every unflagged cluster start "
+                         "between two adjacent syllables is unsafe",
+    "reordered-ligature": "a ligature whose first component was reordered in front of a glyph with a smaller cluster value (pre-base "
+                          "vowel sign + base): ligate_input -> merge_clusters renames the first component, set_cluster(.., mask 0) drops "
+                          "its UNSAFE_TO_BREAK and the ligature glyph inherits the cleared mask (buffer.rs, same in HarfBuzz): the "
+                          "cluster start inside the syllable comes out unflagged",
+}
+
+
+def known_class(s, kind="break", o=None):
+    """decided from the recipe / request alone (over-approximation, as for the other synthetic streams); the two font traits exist only
+    in fonts generated with the corresponding switch"""
+    import flagslib as F
+    if F.shaped_reversed(s): return "reversed"
+    if s.g.get("topographical"): return "use-topographical"
+    if s.g.get("mark_first_ligature"): return "reordered-ligature"
+    if s.g.get("composites") and any(_composite(ord(c)) for c in s.text): return "normalizer-all-simple"
+    return None
+
+
+def registered(ctx, cls):
+    """is the finding class registered in known_findings.json?  The streams generate the fonts that lead to it only then"""
+    return any((k.get("signature") or {}).get("class") == cls and k.get("status") == "known" for k in ctx.kf)
+
+
+RULE = ("generated fonts, one per (script, GSUB script tag) the crate sends to the Indic (old / new spec), Khmer, Myanmar or Universal "
+        "shaper (dispatch read from the crate; the kinds take turns), over a small alphabet of the script (2-3 consonants incl. RA, viramas / "
+        "coengs, nukta, dependent vowels, other marks, U+25CC, space, NBSP, joiners) with 2-5 SingleSubst / LigatureSubst lookups whose "
+        "coverages are small subsets of {dotted circle, marks, consonants} under features of the shaper's own list (read from its "
+        "source: before and after the reordering pauses) x texts of well-formed syllables, BROKEN clusters (vowel sign / virama / mark "
+        "without base), typed U+25CC, spaces x the script's own direction (7 in 10) or l / r / t / b x levels 0/1 x cluster numbering "
+        "with gaps x DO_NOT_INSERT_DOTTED_CIRCLE 1 in 8; ")
